@@ -81,8 +81,12 @@ CHECKS = {
              "residue constants, generator on curve, order prime and annihilating, h*r the unique curve order in the Hasse "
              "interval, cofactor clearing, coefficient-class flags, comb generator table entries, beta^3=1, lambda^2+lambda+1=0, "
              "psi(G)=[lambda]G, GLV basis in the lattice with determinant r and short decompositions, BN family polynomials, "
-             "embedding degree minimal, tower non-residues define fields, twist coefficients/generator/order/cofactor, "
-             "Frobenius = [p] on G2, advertised security level.",
+             "embedding degree minimal, tower non-residues define fields, twist coefficients/generator/order/cofactor (also on twist "
+             "points outside G2), Frobenius = [p] on G2, advertised security level, the GLV rounding constants as nearest integers of "
+             "their defining quotients, the SSWU / SvdW / sqrt(-3) constants of the hash-to-curve maps. The two binary field "
+             "polynomials and the two binary curves of the pinned build are judged through C16's driver against model/FbSpec "
+             "(polynomial irreducible, generator on the curve, order prime and annihilating, Hasse interval, cofactor class, "
+             "Koblitz flag, level).",
         ref="§4 C18",
         note=_NOTE + " Primality of 256-bit values rests on the accelerator's isProbablePrime(128). Binary-curve and Edwards parameter sets are checked under C16/C17.",
         technique="TLC evaluation of the parameter-set relations (ParamSpec) on getter dumps of every accepted id"),
